@@ -175,6 +175,16 @@ Proof.
 Qed.
 Print Assumptions C02_SE3_inv_antihom.
 
+(* the SO(3) hypothesis on X is needed: the full statement "for ALL affine X, Y" is false (this is about operands
+   outside the group, not a defect of the code); _partial is C02_SE3_inv_antihom above *)
+Theorem C02_SE3_inv_antihom_all_matrices_refuted : exists X Y : M44 R,
+  tr_SE3_inv_of_mul Rops X Y <> tr_SE3_mul_of_inv Rops X Y.
+Proof.
+  exists ((2,0,0,0),(0,2,0,0),(0,0,2,0),(0,0,0,1)), ((1,0,0,1),(0,1,0,0),(0,0,1,0),(0,0,0,1)).
+  gen_unfold. intro H. injection H. intros. lra.
+Qed.
+Print Assumptions C02_SE3_inv_antihom_all_matrices_refuted.
+
 Theorem C02_SE3_div : forall X Y : M44 R, tr_SE3_div Rops X Y = tr_SE3_mul Rops X (tr_SE3_inv Rops Y).
 Proof. gen_ring. Qed.
 Print Assumptions C02_SE3_div.
